@@ -21,6 +21,8 @@ def corpus():
         "scn 2 _/L0;_/WN|WPs|WQ;_/L2 -",      # a component that stops inside t.Time still stops the iteration
         # through the public API: a combined scenario whose first component fails in every way; the later component
         # runs exactly when the first did not stop the iteration
+        "cli mode=users dur=%s conc=1 bodyms=1 maxit=12 failevery=2 failkind=panicstringer combine=1 expectlimit=1" % hx("400ms"),   # C20k: a component panics with a value whose String method panics
+        "cli mode=users dur=%s conc=2 bodyms=1 maxit=12 failevery=3 failkind=panicstringer combine=1 logfmt=json expectlimit=1" % hx("400ms"),
         "cli mode=users dur=%s conc=1 bodyms=1 maxit=12 failevery=2 failkind=errunhash combine=1 expectlimit=1" % hx("400ms"),
         "cli mode=users dur=%s conc=2 bodyms=1 maxit=12 failevery=3 failkind=errorf combine=1 expectlimit=1" % hx("400ms"),
         "cli mode=users dur=%s conc=2 bodyms=1 maxit=12 failevery=2 failkind=panicunhash combine=1 expectlimit=1" % hx("400ms"),
